@@ -6,6 +6,7 @@
 #include <sbepp/sbeppc/source_location.hpp>
 
 #include <algorithm>
+#include <iterator>
 #include <cassert>
 #include <string_view>
 #include <string>
@@ -37,7 +38,12 @@ public:
 
     source_location find(const std::size_t offset) const
     {
-        const auto search = std::lower_bound(
+        if(ranges.empty())
+        {
+            return {path, 1, 1};
+        }
+
+        auto search = std::lower_bound(
             std::begin(ranges),
             std::end(ranges),
             offset,
@@ -46,7 +52,12 @@ public:
                 return lhs.end < rhs;
             });
 
-        assert(search != std::end(ranges) && "Offset is out of range");
+        // XML parser can report an offset past the end of data, e.g. for a
+        // truncated document. Attribute it to the last line.
+        if(search == std::end(ranges))
+        {
+            search = std::prev(std::end(ranges));
+        }
 
         const auto line =
             static_cast<std::size_t>(search - std::begin(ranges) + 1);
